@@ -24,9 +24,48 @@ EL = "svgdx::element::SvgElement"
 EVALS = (EL + "::resolve_position", EL + "::eval_attributes", "svgdx::transform::process_events")
 
 
+def registration_keys_agree(prog, chk):
+    """the id map is written (update_element) and un-written (every context method that removes from it) under the same
+    key: if one side evaluates the `id` attribute (eval_attr) before using it, so does the other.  Otherwise an element
+    whose id is spelled with a variable or expression is registered under one key and withdrawn under another - the
+    withdrawal does nothing and the unresolved element stays visible to references."""
+    CTXP = "svgdx::context::TransformerContext::"
+
+    def key_ops(method_names):
+        out = []
+        for b in prog.bodies.values():
+            if not b.path.startswith(CTXP) or "{closure" in b.path:
+                continue
+            for (bb, t, c) in b.call_sites(lambda c: "HashMap" in c.inst and c.path.split("::")[-1] in method_names):
+                o = R.origin(b, t["args"][0], carriers={}) if t["args"] else ("?",)
+                if not (o[0] == "field" and str(o[1][1][-1]) == ".elem_map") or len(t["args"]) < 2:
+                    continue
+                k = R.origin(b, t["args"][1], carriers=dict(R.CARRIERS, unwrap_or=0, unwrap_or_else=0, unwrap_or_default=0, clone=0, as_str=0, deref=0))
+                evaluated = k[0] == "call" and "fn" in k[2] and Callee(k[2]["fn"]).path == "svgdx::expression::eval_attr"
+                if not evaluated:
+                    # the key may be named first: look for an eval_attr call whose result can flow into the key local
+                    kl = R.origin_local(b, t["args"][1])
+                    if kl is not None:
+                        for (eb, et, ec) in b.call_sites(lambda c: c.path == "svgdx::expression::eval_attr"):
+                            if kl in _moved_to(b, et["dest"][0]) or any(kl in _moved_to(b, node["dest"][0]) for (ub, ui, node, how) in R.uses_of(b, et["dest"][0]) if ui == R.TERM and node.get("k") == "call" and node.get("dest")):
+                                evaluated = True
+                out.append((b, bb, t, evaluated))
+        return out
+
+    ins = key_ops(("insert",))
+    rem = key_ops(("remove", "remove_entry"))
+    chk.floor("A16.registration-key", min(len(ins), len(rem)), 1, "insert into / removal from the id map in TransformerContext")
+    if not ins or not rem:
+        return
+    ins_eval = {e for (_, _, _, e) in ins}
+    for (b, bb, t, e) in rem:
+        chk.ob({e} == ins_eval, "A16.registration-key", f"{b.short}:remove", b.where(bb, t.get("line")), "the id map entry is removed under the key it was inserted under (the evaluated id on both sides)", f"{b.short} removes the id map entry under the {'evaluated' if e else 'unevaluated'} id while update_element inserts under the {'evaluated' if True in ins_eval else 'unevaluated'} one: for id=\"b$k\" / id=\"b{{{{1}}}}\" the provisional registration of a deferred element is never withdrawn and references resolve against the half-defined element")
+
+
 def run(prog, chk):
     unknown_ref_is_error(prog, chk)
     registration(prog, chk)
+    registration_keys_agree(prog, chk)
     from props import C17, C15, C01_loops, C06
     C17.depth_pairing(prog, chk)
     C15.scope_pairing(prog, chk, "A5.scope")
